@@ -204,11 +204,12 @@ func MatchExtension(file string, exts []string) bool {
 // if it has .yml extension, replace it with .yaml
 func AddYamlExtension(file string) string {
 	ext := filepath.Ext(file)
-	if ext == "" {
-		return file + ".yaml"
+	if ext == ".yaml" {
+		return file
 	}
 	if ext == ".yml" {
 		return strings.TrimSuffix(file, ext) + ".yaml"
 	}
-	return file
+	// any other suffix (e.g. "v1.2") is part of the name, not an extension
+	return file + ".yaml"
 }
